@@ -176,8 +176,12 @@ class Effects:
                 continue
             hdrs = [s] if not isinstance(s, (ast.If, ast.While, ast.For, ast.Try, ast.With, ast.FunctionDef)) else []
             cnt = sum(1 for h in hdrs for x in ast.walk(h) if isinstance(x, ast.Yield))
-            if any(isinstance(x, ast.YieldFrom) for h in hdrs for x in ast.walk(h)):
-                cnt = max(cnt, 0)
+            for h in hdrs:
+                for x in ast.walk(h):
+                    # `yield from (n, m)`: a literal sequence yields each of its elements
+                    if isinstance(x, ast.YieldFrom) and isinstance(x.value, (ast.Tuple, ast.List)) and \
+                            not any(isinstance(e, ast.Starred) for e in x.value.elts):
+                        cnt += len(x.value.elts)
             if cnt:
                 ynodes[n.id] = cnt
 
